@@ -19,6 +19,7 @@ EXPLANATION = (
     "`lines` is the output under construction as it was at the start of the iteration. (R3) WrapAlgorithm::wrap's FirstFit "
     "arm passes the words unchanged and the element-wise `as f64` image of the usize widths to wrap_first_fit and returns "
     "its result unchanged. T: the text-level reading follows with C01.R1, C02.R1/R2 and C10. U: none structural."
+    " (R5) imported lemma C02 for the text-level restatement: the widths handed to first-fit are the space beside each rendered line's indent."
 )
 ASSUMPTIONS = ["A-rustc", "f64 comparison and addition are used as the real-valued operations (exactness not claimed)"]
 LEVEL_TEXT = (
